@@ -335,6 +335,14 @@ def pair(E, D, skip_prefix=0, reach=None):
         return [('encoder', None, 'encoder has no normal return')]
     if not D.paths:
         return [('decoder', None, 'decoder has no normal return')]
+    if all(ep.term is None for ep in E.paths):
+        # the encoder emits nothing (void): the decoder reads nothing and
+        # gives None back
+        okv = all(dp.consumed == 0 and dp.value is None for dp in D.paths)
+        return [('void', okv, 'nothing is written; the decoder consumes %s '
+                 'and returns %s' % (
+                     sorted({T.show(dp.consumed) for dp in D.paths}),
+                     sorted({T.show(dp.value) for dp in D.paths})))]
     for ep in E.paths:
         segs = list(ep.segs)
         skip = skip_prefix
